@@ -15,6 +15,21 @@ uint32_t my_crc32c_slicing(const uint8_t *, size_t);
 bool my_crc32c_sse42_supported(void);
 uint32_t my_crc32c_sse42(const uint8_t *, size_t);
 
+/* the FIRST call of the process through the dispatch pointer, made before the library's own constructor has replaced the
+ * initial trampoline (constructor priority 101 runs before the default-priority constructors of the objects linked in):
+ * the value it returned, and whether the call replaced the pointer (= the trampoline really ran) */
+#include "libmy/crc32c.h"
+static uint32_t early_val[2]; static int early_tramp, early_done;
+static const uint8_t early_buf[] = "\0\0\0""123456789 first call through the trampoline, 53 bytes.";
+__attribute__((constructor(101))) static void early_crc(void)
+{
+	my_crc32c_fp fp0 = my_crc32c;
+	early_val[0] = mtbl_crc32c(early_buf + 3, 9);
+	early_tramp = (fp0 != my_crc32c);
+	early_val[1] = mtbl_crc32c(early_buf + 3, sizeof early_buf - 4);
+	early_done = 1;
+}
+
 /* a buffer whose first byte sits at address ≡ align (mod 8), with exactly n accessible bytes before a poisoned tail */
 static uint8_t *aligned_buf(size_t n, int align, uint8_t **base)
 {
@@ -244,6 +259,15 @@ int ops_codec(char **args, int na)
 		}
 		free(b);
 		if (wrong) printf("hist wrong=%ld first=%s\n", wrong, first); else printf("hist ok n=%ld\n", calls);
+		return 0;
+	}
+	if (!strcmp(op, "crc.early")) {
+		/* reply: early ok trampoline=<0|1> | early wrong first=<hex> want=<hex> trampoline=<0|1> */
+		uint32_t w0 = my_crc32c_slicing(early_buf + 3, 9), w1 = my_crc32c_slicing(early_buf + 3, sizeof early_buf - 4);
+		if (!early_done) { puts("early unavailable"); return 0; }
+		if (early_val[0] != w0 || w0 != 0xe3069283u) printf("early wrong first=%08x want=%08x trampoline=%d\n", early_val[0], w0, early_tramp);
+		else if (early_val[1] != w1) printf("early wrong second=%08x want=%08x trampoline=%d\n", early_val[1], w1, early_tramp);
+		else printf("early ok trampoline=%d\n", early_tramp);
 		return 0;
 	}
 	if (!strcmp(op, "crc.cpu")) { puts(my_crc32c_sse42_supported() ? "sse42 1" : "sse42 0"); return 0; }
